@@ -96,6 +96,11 @@ func c19Canonical(p string) string {
 	return s
 }
 
+func c19NoComponent(p string) bool { // ".", "./", "./." ...: relative and without a name
+	rooted, names := c19Names(p)
+	return !rooted && len(names) == 0
+}
+
 func c19DotOnly(p string) bool { // relative, no names, but not the text "."
 	rooted, names := c19Names(p)
 	return !rooted && len(names) == 0 && p != "." && p != ""
@@ -280,9 +285,6 @@ func c19PredKey(k int, p, sub string, impl, spec bool) string {
 			return "C19/ContainsPath/length-limit-with-redundant-sub"
 		}
 	case 2:
-		if _, names := c19Names(sub); !rooted && len(names) == 0 {
-			return "C19/HasSuffixPath/dot-suffix"
-		}
 		if p != c19Canonical(p) || sub != c19Canonical(sub) {
 			return "C19/HasSuffixPath/text-comparison-of-redundant-paths"
 		}
@@ -352,8 +354,11 @@ func c19CheckPreds(ctx *Ctx, res *Result, ps, qs []string, nontrivial *c19Seen) 
 					if ib {
 						cnt[c19PredNames[k]+"_true"]++
 					}
-					// the property: only for non-empty paths (an empty path denotes nothing)
-					if p != "" && s != "" {
+					// the property: only for non-empty paths (an empty path denotes nothing);
+					// HasSuffixPath only for a suffix that has a component: "it doesn't really make
+					// sense to ask whether a path ends with the current directory" (path_test.go,
+					// which fixes "dir".HasSuffixPath(".") == false)
+					if p != "" && s != "" && !(k == 2 && c19NoComponent(s)) {
 						if ib != sbit {
 							key := c19PredKey(k, p, s, ib, sbit)
 							cnt["deviation "+key]++
